@@ -43,7 +43,7 @@ class C06(Check):
     level_text = ('Seeded search over table-building histories interleaved with request streams; per table the full '
                   'paths x methods catalogue is swept at least once. The table/history space is sampled.')
     level_note = 'Trusted: the sequential dispatch model (~40 lines) and the catalogue match relation.'
-    required_probes = ('add-concurrent-with-request', '405-with-allow', 'fallthrough-then-later-route', 'fallthrough-last-error-wins', 'add-at-index',
+    required_probes = ('concurrent-requests', 'add-concurrent-with-request', '405-with-allow', 'fallthrough-then-later-route', 'fallthrough-last-error-wins', 'add-at-index',
                        'head-on-get-route', 'lowercase-method', 'redirect-302', 'strict-mode')
 
     def gen_entry(self, rng, mode, k):
@@ -82,6 +82,18 @@ class C06(Check):
                     ops.append({'op': 'sweep'})
             elif r < 0.2:
                 ops.append({'op': 'sweep'})
+            elif r < 0.27:
+                # several requests served at once on the same table
+                sch = S['sched']
+                n = sch.choice([2, 2, 3])
+                gran = sch.choice(['line', 'line', 'ins'])
+                hi = 250 if gran == 'line' else 1500
+                names = ['T%d' % i for i in range(n)]
+                order = list(names)
+                sch.shuffle(order)
+                ops.append({'op': 'conc', 'reqs': [{'path': rng.choice(R.PATHS), 'method': rng.choice(R.METHODS[:5])} for _ in range(n)],
+                            'granularity': gran, 'order': order,
+                            'preempts': sorted([sch.randint(1, hi), sch.choice(['demote'] + names)] for _ in range(sch.randint(1, 6)))})
             else:
                 ops.append({'op': 'req', 'path': rng.choice(R.PATHS), 'method': rng.choice(R.METHODS)})
         ops.append({'op': 'sweep'})
@@ -146,6 +158,33 @@ class C06(Check):
                 if pats != [t['pattern'] for t in table]:
                     res.violate(K + 'routes-reordered', 'step %d after add(index=%r): routes %r, expected %r (before: %r)'
                                 % (step, idx, pats, [t['pattern'] for t in table], before), step)
+                    break
+            elif op['op'] == 'conc':
+                got = {}
+                tasks = {}
+                for i, rq in enumerate(op['reqs']):
+                    tasks['T%d' % i] = (lambda i=i, rq=rq: got.__setitem__(i, call_app(app, make_environ(rq['method'], rq['path']), validate=False)))
+                sched = BatonScheduler(op.get('order', sorted(tasks)), op.get('preempts', []), op.get('granularity', 'line'), WATCH)
+                sched.run(tasks)
+                res.fire('preempt', len(sched.switches))
+                res.probe('concurrent-requests')
+                if sched.errors:
+                    res.violate(K + 'thread-raised:%s' % type(list(sched.errors.values())[0]).__name__, '%r' % (sched.errors,), step)
+                    break
+                bad = None
+                for i, rq in enumerate(op['reqs']):
+                    exp = R.dispatch_model(table, rq['path'], rq['method'])
+                    o = R.observe(got[i])
+                    b = R.compare(exp, o)
+                    if b:
+                        bad = (rq, b, o)
+                        break
+                res.ev(step, 'conc', len(op['reqs']), 'switches', len(sched.switches), [got[i].code for i in sorted(got)])
+                if bad:
+                    res.violate(K + 'concurrent/' + bad[1][0], 'step %d %s %s served concurrently with %s (mode %s): %s\n table: %s\n got: %s'
+                                % (step, bad[0]['method'], bad[0]['path'], [r for r in op['reqs'] if r is not bad[0]], mode, bad[1][1],
+                                   [(e['pattern'], e['methods'], e['out'], e['tag']) for e in table],
+                                   dict((k, v) for k, v in bad[2].items() if v is not None)), step)
                     break
             elif op['op'] == 'add_conc':
                 e = dict(op['entry'], mode=mode, prefix='')
